@@ -126,6 +126,31 @@ def cut_and_graft_variants(key, data, tree0):
     return out
 
 
+def relabel_then_edit_variants(key, data, tree0):
+    """A copy of the tree is relabelled (pre-order numbering, as the run loop does after every iteration) and THEN edited:
+    a data point is moved from a clone that holds several to another clone.  The result is another forest; its
+    densities must be that forest's."""
+    out = []
+    t0 = tree0.copy()
+    t0.relabel_nodes()
+    _, conc = absstate.project(t0, full=False)
+    by = {dp.idx: dp for dp in data}
+    donors = [(n_, ds) for n_, ds in conc["dat"].items() if len(ds) > 1]
+    if not donors or len(conc["names"]) < 2:
+        return out
+    for n_, ds in donors[:2]:
+        for target in [m for m in conc["names"] if m != n_][:3]:
+            t = t0.copy()
+            t.remove_data_point_from_node(by[ds[0]], n_)
+            t.add_data_point_to_node(by[ds[0]], target)
+            try:
+                vkey = absstate.project(t, full=True)[0]
+            except absstate.Inconsistent:
+                continue
+            out.append(("relabelled_then_moved_%d_from_%s_to_%s" % (ds[0], n_, target), t, vkey))
+    return out
+
+
 def light_pass(ck, n):
     """One more data point with a single setting (alpha 2.5, outlier prior 0.2, unit cluster sizes), two constructions per forest:
     covers shapes the full pass does not reach (e.g. two top-level clones beside a clone with two children)."""
@@ -152,6 +177,7 @@ def light_pass(ck, n):
         exp_1 = expected(feats[key], 2.5, 0.2, sizes_of, oracle[key]["Z"] if key[0] else None, outl_marg, G, D, "one")
         variants = [(a, b, key) for a, b in c02.build_variants(key, data)[:2]]
         variants += cut_and_graft_variants(key, data, variants[0][1])
+        variants += [v for v in relabel_then_edit_variants(key, data, variants[0][1]) if v[2] in feats]
         for vname, tree, vkey in variants:
             exp_p = expected(feats[vkey], 2.5, 0.2, sizes_of, oracle[vkey]["Z"] if vkey[0] else None, outl_marg, G, D, "marg")
             exp_1 = expected(feats[vkey], 2.5, 0.2, sizes_of, oracle[vkey]["Z"] if vkey[0] else None, outl_marg, G, D, "one")
